@@ -46,7 +46,7 @@ def find_replay(mod, obligation):
     return best
 
 
-def make_replay(prop, clause, path, seed, mod, known=None):
+def make_replay(prop, clause, path, seed, mod, known=None, cached=None):
     rec = {"property": prop, "obligation": clause["obligation"], "status": clause["status"],
            "verifier_output": {k: clause.get(k) for k in ("backend", "detail", "witness", "group")},
            "repo": os.environ.get("VERIF_REPO", "/repo"), "seed": seed, "reproduced": False}
@@ -56,8 +56,8 @@ def make_replay(prop, clause, path, seed, mod, known=None):
     if r is not None:
         _, script, mode, params = r
         t0 = time.time()
-        res = run_script(script, mode, params, seed)
-        res["replay_s"] = round(time.time() - t0, 2)
+        res = dict(cached) if cached else run_script(script, mode, params, seed)
+        res.setdefault("replay_s", round(time.time() - t0, 2))
         rec["replay"] = res
         rec["reproduced"] = bool(res.get("reproduced"))
     else:
